@@ -249,7 +249,7 @@ fn departing_subscriber_cases() -> Value {
 }
 
 fn extra_worker(_tier: &str, task: &Value, _io: &mut WorkerIo) -> Option<Value> {
-    if task.get("departing").is_some() {
+    if task.get("departing").is_some() || task.get("replay").map(|r| r["kind"] == "departing").unwrap_or(false) {
         return Some(departing_subscriber_cases());
     }
     task.get("glob").map(|l| glob_sweep(l.as_u64().unwrap_or(3) as usize))
